@@ -138,56 +138,7 @@ func runC12(p *Prog, l *Ledger) {
 			continue
 		}
 		{
-			// size = the list's own length, read under the queue mutex
-			var bad []string
-			okLen := false
-			allInstrs(lenFn, func(ins ssa.Instruction) {
-				if ret, ok := ins.(*ssa.Return); ok && len(ret.Results) == 1 {
-					v := resolveLocalCell(strip(ret.Results[0], true))
-					v = strip(v, true)
-					if cv, ok := v.(*ssa.Convert); ok {
-						v = strip(cv.X, true)
-					}
-					call, ok := v.(*ssa.Call)
-					if !ok || !p.CallOf(call).Is("(*container/list.List).Len") {
-						// a counter kept next to the list is the list's length if it is stepped only together with the list,
-						// inside the queue's exclusive critical section, and the step down cannot run twice for one element
-						if fr, base, isF := loadedField(v); isF && fr.Type != nil && types.Identical(fr.Type, backlogT) {
-							if why := c12MirrorCounter(p, locks, backlogT, listF, fr); why == "" {
-								held := locks.Held(ins)
-								for _, mu := range mutexFields(backlogT) {
-									if _, ok := held[AccessPath(base).String()+"."+mu]; ok {
-										okLen = true
-									}
-								}
-								if !okLen {
-									bad = append(bad, fmt.Sprintf("%s: the mirrored length is read without the queue mutex", p.At(ins)))
-								}
-								return
-							} else {
-								bad = append(bad, fmt.Sprintf("%s: the reported backlog size is a counter that is not proved to mirror the list: %s", p.At(ins), why))
-								return
-							}
-						}
-						bad = append(bad, fmt.Sprintf("%s: the reported backlog size is not the list's own length (a mirrored counter can drift): %s", p.At(ins), valueString(v)))
-						return
-					}
-					fr, base, ok := fieldPointerLoad(p.CallOf(call).Recv)
-					if !ok || !sameField(fr, listF) {
-						bad = append(bad, "the length is read from another list")
-						return
-					}
-					held := locks.Held(call)
-					for _, mu := range mutexFields(backlogT) {
-						if _, ok := held[AccessPath(base).String()+"."+mu]; ok {
-							okLen = true
-						}
-					}
-					if !okLen {
-						bad = append(bad, fmt.Sprintf("%s: the list length is read without the queue mutex", p.At(call)))
-					}
-				}
-			})
+			bad, okLen := c12SizeProof(p, locks, backlogT, listF, lenFn)
 			l.Check(len(bad) == 0 && okLen, "O2", p.Key(lenFn)+"/size", p.FuncPos(lenFn), "the backlog size is list.Len() read under the queue mutex", "the reported backlog size can differ from the number of queued callers", bad...)
 		}
 
@@ -915,4 +866,58 @@ func c12MirrorCounter(p *Prog, locks *LockInfo, backlogT *types.Named, listF, cn
 		return "the counter is not stepped up with insertions and down with removals"
 	}
 	return ""
+}
+
+// c12SizeProof: the integer a backlog method reports is the length of the backlog's list - list.Len() itself, or a counter
+// proved to mirror it - read under the queue mutex. Used for the accessor the admission bound reads (C12/O2) and for the
+// supplier of the queue-size gauge (C20/O3).
+func c12SizeProof(p *Prog, locks *LockInfo, backlogT *types.Named, listF FieldRef, lenFn *ssa.Function) (bad []string, okLen bool) {
+	allInstrs(lenFn, func(ins ssa.Instruction) {
+		if ret, ok := ins.(*ssa.Return); ok && len(ret.Results) == 1 {
+			v := resolveLocalCell(strip(ret.Results[0], true))
+			v = strip(v, true)
+			if cv, ok := v.(*ssa.Convert); ok {
+				v = strip(cv.X, true)
+			}
+			call, ok := v.(*ssa.Call)
+			if !ok || !p.CallOf(call).Is("(*container/list.List).Len") {
+				// a counter kept next to the list is the list's length if it is stepped only together with the list,
+				// inside the queue's exclusive critical section, and the step down cannot run twice for one element
+				if fr, base, isF := loadedField(v); isF && fr.Type != nil && types.Identical(fr.Type, backlogT) {
+					if why := c12MirrorCounter(p, locks, backlogT, listF, fr); why == "" {
+						held := locks.Held(ins)
+						for _, mu := range mutexFields(backlogT) {
+							if _, ok := held[AccessPath(base).String()+"."+mu]; ok {
+								okLen = true
+							}
+						}
+						if !okLen {
+							bad = append(bad, fmt.Sprintf("%s: the mirrored length is read without the queue mutex", p.At(ins)))
+						}
+						return
+					} else {
+						bad = append(bad, fmt.Sprintf("%s: the reported backlog size is a counter that is not proved to mirror the list: %s", p.At(ins), why))
+						return
+					}
+				}
+				bad = append(bad, fmt.Sprintf("%s: the reported backlog size is not the list's own length (a mirrored counter can drift): %s", p.At(ins), valueString(v)))
+				return
+			}
+			fr, base, ok := fieldPointerLoad(p.CallOf(call).Recv)
+			if !ok || !sameField(fr, listF) {
+				bad = append(bad, "the length is read from another list")
+				return
+			}
+			held := locks.Held(call)
+			for _, mu := range mutexFields(backlogT) {
+				if _, ok := held[AccessPath(base).String()+"."+mu]; ok {
+					okLen = true
+				}
+			}
+			if !okLen {
+				bad = append(bad, fmt.Sprintf("%s: the list length is read without the queue mutex", p.At(call)))
+			}
+		}
+	})
+	return bad, okLen
 }
